@@ -518,6 +518,10 @@ class SimNode:
                 if it is not None:
                     out.append(b"ITEM %s [%d b; %d s]\r\n" % (k, len(it.value), 0))
             return b"".join(out) + b"END\r\n"
+        elif args[0] == b"reset":
+            return b"RESET\r\n"             # a one-line answer: no END follows
+        elif args[0] == b"detail" and args[1:] in ([b"on"], [b"off"]):
+            return b"OK\r\n"
         elif args[0] in (b"items", b"slabs", b"sizes", b"conns"):
             lines = [(b"items:1:number", b"%d" % len(self.store))] if args[0] == b"items" and self.store else []
         else:
